@@ -16,6 +16,12 @@ SubFrom(a, i, b, j) == IF i > Len(a) THEN TRUE
                        ELSE SubFrom(a, i, b, j + 1)
 IsSubSeq(a, b) == SubFrom(a, 1, b, 1)      \* a is an in-order sub-sequence of b
 
+\* statistics reported next to the same quantities computed from the samples the reader returned (which the clause
+\* before has tied to the submitted prefix); sums and extremes are scaled by 8; the sum may deviate by the
+\* precision of 32-bit float summaries
+StatsAgree(w) == w[1] # 0 \/ ( /\ Abs(w[2] - w[3]) <= 2 + Abs(w[3]) \div 100000
+                                 /\ w[4] = w[5] /\ w[6] = w[7] )
+
 SigObsVerdict(S, ev, ent) ==
     IF ~Has(S.sigs, ent.sig) THEN "a signal that was never defined appeared"
     ELSE LET g == S.sigs[Idx(S.sigs, ent.sig)] IN
@@ -26,6 +32,7 @@ SigObsVerdict(S, ev, ent) ==
         ELSE IF ent.len > 0 /\ (~RunsCover(ent.runs, ent.first, ent.len)
                                 \/ \E i \in 1..Len(ent.runs) : ~RunOk(g, [p |-> ent.runs[i].p - g.first, n |-> ent.runs[i].n, c |-> ent.runs[i].c]))
              THEN "samples differ from the submitted prefix"
+        ELSE IF \E i \in 1..Len(ent.st) : ~StatsAgree(ent.st[i]) THEN "statistics disagree with the samples of the prefix"
         \* at most the buffered samples and the one block in flight are lost (no omission involved)
         ELSE IF ev.j = 0 /\ ev.after_defs /\ g.synth = {} /\ g.bits > 8 /\ g.reg = 0 /\ ent.len < ent.ondisk - g.norm.spd
              THEN "more than the block in flight was lost"
